@@ -53,10 +53,29 @@ def expressions(tier):
                 pool_n = pool
             for args in itertools.product(pool_n, repeat=n):
                 out.append("%s(%s)" % (fn, ", ".join(args)))
+    # names that are not States.<function>: whatever a dispatcher could find under such a name (a helper local to the evaluator, one of its
+    # own implementations without the prefix, a builtin) it is not an intrinsic function. The name list is read from the evaluator's code object.
+    for nm in local_names():
+        for args in ("", "1", "1, 1", "'a'", "$.arr"):
+            out.append("%s(%s)" % (nm, args))
     # malformed call text
     out += ["States.MathAdd(1, 2", "States.MathAdd 1, 2)", "MathAdd(1, 2)", "States.MathAdd(1,, 2)", "States.MathAdd(1 2)", "States.Array('a)", "States.Format('{}', 'a', )",
             " States.MathAdd( 1 ,2 ) ", "States.MathAdd(1,2)x", "States.Array(1, 'b', States.Array(States.Array('c, d')))", "States.Format('{} and {}', States.Format('{}', 'n1'), States.Format('{}', 'n2'))"]
     return out
+
+def local_names():
+    """Every name local to the template evaluator and its nested functions (from the code objects), plus a few builtins."""
+    sp, ex = engine()
+    names = set()
+    def walk(code):
+        names.update(code.co_varnames); names.update(code.co_cellvars); names.update(code.co_freevars)
+        for c in code.co_consts:
+            if hasattr(c, "co_varnames"):
+                names.add(c.co_name)
+                walk(c)
+    walk(sp.evaluate_payload_template.__code__)
+    names = {n for n in names if n.isidentifier() and not n.startswith("__")}
+    return sorted(names) + ["len", "str", "print", "eval", "exec", "open", "dict", "States", "asl_intrinsic_Array", "asl_intrinsic_UUID"]
 
 def templates():
     """Payload templates mixing literal and '.$' members at depth <= 2 (incl. arrays)."""
